@@ -152,6 +152,29 @@ def run_property(pid, tier):
                                "where": res.get("where"), "message": res.get("message", ""), "unit": "structural", "verifier_output": res.get("message", "")})
             elif res["status"] == "undecided":
                 undecided.append("structural %s: %s" % (res["id"], res.get("message")))
+    # ---------------------------------------------------------------- thorough tier: the witness searches run proactively
+    native_search = []
+    if tier == "thorough":
+        wunits = [u for u in cfg.get("verus", []) if u in P.WITNESS]
+        if cfg.get("fallback_witness") in P.WITNESS:
+            wunits.append(cfg["fallback_witness"])
+        for u in wunits:
+            w = P.WITNESS[u]
+            try:
+                wits, wlog, ok, stats, cmd = W.run_witness(pid, w["target"], os.path.join(C.VERIF, w["src"]))
+            except Exception as e:
+                wits, wlog, ok, stats, cmd = [], repr(e), False, {}, ""
+            native_search.append({"unit": u, "ran": ok, "evaluations": stats.get("evaluations"), "witnesses": len(wits)})
+            if not ok:
+                undecided.append("native search of unit %s did not run: %s" % (u, wlog[-300:].replace("\n", " | ")))
+            already = {f["fn"] for f in failed}
+            for x in wits:
+                if x.get("fn") in already:
+                    continue
+                # the real code misbehaves on an input although every contract was discharged: report it (replayed natively by construction)
+                failed.append({"id": "native-search.%s.%s" % (u, x.get("fn")), "fn": x.get("fn"), "kind": "native-witness", "status": "failed", "backend": "native-search",
+                               "where": w["target"], "message": "%s (expected: %s)" % (x.get("observed"), x.get("expected")), "unit": u, "verifier_output": json.dumps(x), "native_witness": x})
+                already.add(x.get("fn"))
     # ---------------------------------------------------------------- triage of failures
     violations, known_hits = [], []
     for f in failed:
@@ -202,6 +225,7 @@ def run_property(pid, tier):
             "kani_copy_diff": kani_stats,
             "bounded_checks": bounded_checks,
             "structural_checks": structural,
+            "native_search_thorough_tier": native_search,
             "supporting_obligations_of_other_properties_in_the_same_units": len(supporting),
             "hints_removed_this_run": hints_removed,
             "canary_rejected": canary_ok,
@@ -265,7 +289,11 @@ def report_violations(pid, violations, kani_results):
         replay = None
         if not (f["backend"].startswith("verus") and unit in P.WITNESS) and not f["backend"].startswith("kani") and P.claimed()[pid].get("fallback_witness") in P.WITNESS:
             unit = P.claimed()[pid]["fallback_witness"]   # structural obligations: the property's own native search supplies the witness
-        if (f["backend"].startswith("verus") or f["backend"] == "structural-scan") and unit in P.WITNESS:
+        if f["backend"] == "native-search":
+            wit = f["native_witness"]
+            w = P.WITNESS[unit]
+            replay = {"kind": "native-test", "unit": unit, "target": w["target"], "src": w["src"], "input": wit.get("input")}
+        elif (f["backend"].startswith("verus") or f["backend"] == "structural-scan") and unit in P.WITNESS:
             w = P.WITNESS[unit]
             if unit not in wit_cache:
                 try:
